@@ -61,6 +61,7 @@ type rCfg struct {
 	SetupFail   bool   `json:"setup_fail"`
 	SetupMode   string `json:"setup_mode"`
 	StopDelayUs int64  `json:"stop_delay_us"` // the hook parks the pool's stop goroutine this long at tp.stop.flagged
+	PoolOnly    bool   `json:"pool_only"`     // cooperative pool schedules: no Run.Do around the pool
 	Light       bool   `json:"light"`         // contention runs: bodies only record their id lock-free; no end/cleanup events
 	Blockers    int    `json:"blockers"`
 	Ample       bool   `json:"ample"` // concurrency >= every tick and instant bodies: nothing can be pending at a tick
